@@ -75,6 +75,16 @@ CHECKS = {
         tech="exhaustive single-fault enumeration over header fields, both construction routes",
         sec="C12",
     ),
+    "C13": dict(
+        cat="exploration",
+        text="The space is finite and is walked completely: every concrete aggregate class x every declared child x every group declared on any base. "
+        "Static checks on the class dictionaries (class found by tag, attribute name = lower-cased member class, groups name existing optional "
+        "non-repeated children and are in force) plus one construct / to_etree / from_etree probe per child and one full-instance probe per class with "
+        "repeated kinds.",
+        note="Reads class __dict__s along the MRO itself; the 24 Unsupported children of the pinned commit are taken as documented gaps.",
+        tech="complete enumeration of a finite space (classes x declared children x groups) with a construct/write/read probe each",
+        sec="C13",
+    ),
 }
 
 NA_REASON = "check not built yet in this revision of /verif (planned: see DESIGN.md section 3); nothing is claimed for it"
